@@ -176,6 +176,38 @@ def run(ctx):
             ctx.violation("exit status / files / bytes depend on the warning selection or the report format",
                           {"source": src_full, "argv_base": base_argv}, expected="one outcome", observed=[(o[0], [k for k, _ in o[1]]) for o in outcomes])
         ctx.sample({"source": src_full, "argv": base_argv, "planted": planted, "events": events, "exit": outcomes[0][0] if outcomes else None})
+    # ---- at the limit of the container: 65535 bytes fit the 16-bit length field, 65536 do not; a run that fails for
+    # that reason creates nothing and leaves what was there before as it was
+    for size, sel in [(65535, "make_bin"), (65536, "make_bin"), (65536, "-o-bin"), (65535, "-o-bin"), (65536, "implicit"), (65536, "make_bin_named")]:
+        d = impl.scratch_dir()
+        try:
+            body = ".blkb 177777\n" + (".byte 1\n" if size == 65536 else "")
+            extra = {"make_bin": "make_bin\n", "make_bin_named": "make_bin \"big.bin\"\n"}.get(sel, "")
+            argv = ["p.mac"] + {"-o-bin": ["-o", "p.bin"], "implicit": ["--implicit-bin"]}.get(sel, [])
+            with open(os.path.join(d, "p.mac"), "w", encoding="utf-8") as f:
+                f.write(body + extra)
+            target = "big.bin" if sel == "make_bin_named" else "p.bin"
+            old_content = rng.choice([None, b"an earlier good build " * 5])
+            if old_content is not None:
+                with open(os.path.join(d, target), "wb") as f:
+                    f.write(old_content)
+            before = impl.snapshot_dir(d)
+            res = impl.run_cli(argv, cwd=d, timeout=60.0)
+            after = impl.snapshot_dir(d)
+            inp = {"source": body + extra, "argv": argv, "image_bytes": size, "target_existed": old_content is not None}
+            ctx.case(("limit", size, sel, old_content is not None))
+            ctx.count("container-limit runs")
+            if size == 65535:
+                if res.exit != 0 or len(after.get(target, b"")) != 65535 + 4:
+                    ctx.violation("an image of 65535 bytes was not written to its bin container", inp, expected="exit 0, 65539 bytes", observed={"exit": res.exit, "len": len(after.get(target, b""))})
+            else:
+                if res.exit == 0:
+                    ctx.violation("an image that does not fit its container was written without an error", inp, expected="failure", observed="exit 0")
+                elif after != before:
+                    ctx.violation("a failed run created or modified files", inp, expected="directory unchanged",
+                                  observed=sorted(k for k in set(after) | set(before) if after.get(k) != before.get(k)))
+        finally:
+            impl.drop_scratch(d)
     for (inp, exit_, nnew), a in zip(jobs, ctx.driver.ask(reqs)):
         kv = dict(t.split("=") for t in a.split())
         m_writes = 0 if kv["writes"] == "-" else len(kv["writes"].split(","))
